@@ -101,6 +101,7 @@ pub fn gen_c01(rng: &mut Rng, caseid: u64, unix: bool, bound_ms: u64) -> (ConvCa
             finish,
             pre_delay_us: if rng.chance(1, 2) { rng.range(0, 2000) as u64 } else { 0 },
             zero_read_after: None,
+            read_api: ReadApi::Read,
         };
         kinds.push(match &plan.finish {
             Finish::Respond { declared: false, .. } => "chunked".to_string(),
@@ -204,21 +205,54 @@ pub fn gen_c06(rng: &mut Rng, caseid: u64, unix: bool, bound_ms: u64) -> (ConvCa
             finish,
             pre_delay_us: if rng.chance(1, 2) { rng.range(0, 2000) as u64 } else { 0 },
             zero_read_after: None,
+            read_api: ReadApi::Read,
         };
         kinds.push(format!("{}:{}:{}", bkind, plan.read_label(len), plan.finish_label()));
         p.push_valid(&a, &wire_body, designated, LenExp::Any, plan, "pipelined");
     }
     let sched = gen_sched(rng, n, all_small);
     let nonfirst_dropped = p.plans.iter().enumerate().any(|(i, pl)| i > 0 && matches!(pl.finish, Finish::Drop | Finish::Panic));
+    // the last request has a streamed Content-Length body that the handler does not read to the
+    // end: the client may hold the rest of the body back until it has seen the response. The
+    // response (a 500 for a dropped request) must not wait for the body.
+    let last_streamed_unread = {
+        let lp = p.plans.last().unwrap();
+        let lr = p.reqs.last().unwrap();
+        let cl_big = lr.abs.as_ref().and_then(|a| a.header("Content-Length")).and_then(|v| v.parse::<usize>().ok()).map_or(false, |l| l > 1024);
+        // not with the raw writer: `into_writer` consumes the request and with it the body reader,
+        // whose discard-on-drop waits for the rest of the body *before* the writer is handed out.
+        // That is how the library is built (the property says nothing about when a raw writer
+        // becomes available), so holding the body back there would demand more than the statement.
+        cl_big && !matches!(lp.read, ReadPlan::ToEof { .. }) && matches!(lp.finish, Finish::Respond { .. } | Finish::Drop | Finish::Panic)
+    };
+    let withhold = last_streamed_unread && rng.chance(1, 2);
     let mut case = p.finish(rng, "pipeline", unix, &[], false, bound_ms);
     case.script = segmented_script(rng, &case, false);
+    if withhold {
+        let total = case.wire.len();
+        let last = case.reqs.last().unwrap();
+        let body_len = last.bytes.len() - last.head_len;
+        // everything up to a little into the last body, the rest only after all responses
+        let keep_back = body_len - rng.range(0, 600.min(body_len - 1));
+        let nresp = case.exp_responses.len();
+        case.script = vec![
+            Step::Send(0, total - keep_back),
+            Step::AwaitFinals(nresp),
+            Step::Send(total - keep_back, total),
+            Step::AwaitEnd,
+        ];
+        if let Some(pl) = case.plans.last_mut() {
+            // a partial read must stay within what was sent
+            pl.read = ReadPlan::None;
+        }
+    }
     let sl = match &sched {
         Sched::Immediate => "immediate",
         Sched::SingleThread => "single-thread",
         Sched::Gate { .. } => "gate",
     };
     case.sched = sched;
-    let sig = format!("n{}|{:?}|{}|nfd{}", n, kinds, sl, nonfirst_dropped);
+    let sig = format!("n{}|{:?}|{}|nfd{}|wh{}", n, kinds, sl, nonfirst_dropped, withhold);
     (case, Some(sig))
 }
 
